@@ -147,6 +147,10 @@ func (f *Func) Invoke(ctx context.Context, arg interface{}) (interface{}, error)
 		waitInterval = f.WaitInterval
 	}
 
+	// A shard that cannot be a map key panics here, before the lock is taken:
+	// a panic in the lookup below would leave the lock held for good.
+	_ = map[interface{}]struct{}{shard: {}}
+
 	verifAt("invoke.enter", nil, -1)
 	bctx.mu.Lock()
 	// Look up the batchGroup for the Func shard, if any.
